@@ -21,6 +21,8 @@ pub fn err_class(e: &LexerError) -> &'static str {
         LexerError::ReadError { source, .. } => match source {
             az65::charreader::CharReaderError::IoError(_) => "io",
             az65::charreader::CharReaderError::Utf8Error(_) => "utf8",
+            #[allow(unreachable_patterns)]
+            _ => "read-other",
         },
         LexerError::UnexpectedLineBreak { .. } => "linebreak",
         LexerError::UnrecognizedStringEscape { .. } => "escape",
@@ -31,6 +33,9 @@ pub fn err_class(e: &LexerError) -> &'static str {
         LexerError::UnrecognizedInput { .. } => "input",
         LexerError::UnknownDirective { .. } => "directive",
         LexerError::MalformedLabel { .. } => "label",
+        // a variant added to the implementation after this harness was written
+        #[allow(unreachable_patterns)]
+        _ => "other",
     }
 }
 
@@ -53,9 +58,13 @@ pub fn fmt_token<A: ArchTokens>(tok: &Token<A>, int: &Rc<RefCell<StrInterner>>) 
                 LabelKind::Global => "G",
                 LabelKind::Local => "L",
                 LabelKind::Direct => "D",
+                #[allow(unreachable_patterns)]
+                _ => "?",
             };
             format!("lab:{k}:{}", hex(int.borrow().get(*value).unwrap().as_bytes()))
         }
+        #[allow(unreachable_patterns)]
+        _ => "other-token".to_string(),
     };
     format!("{body}@{}:{}", loc.line, loc.column)
 }
